@@ -567,7 +567,7 @@ struct decode_traits<std::array<T,N>>
     {
         std::error_code ec;
 
-        std::array<T,N> v;
+        std::array<T,N> v{};
         cursor.array_expected(ec);
         if (JSONCONS_UNLIKELY(ec))
         {
@@ -578,19 +578,30 @@ struct decode_traits<std::array<T,N>>
             return result_type{jsoncons::unexpect, conv_errc::not_vector, cursor.line(), cursor.column()}; 
         }
         cursor.next(ec);
-        for (std::size_t i = 0; i < N && cursor.current().event_type() != staj_events::end_array && !ec; ++i)
+        if (JSONCONS_UNLIKELY(ec)) 
+        {
+            return result_type{jsoncons::unexpect, ec, cursor.line(), cursor.column()}; 
+        }
+        std::size_t count = 0;
+        while (count < N && cursor.current().event_type() != staj_events::end_array)
         {
             auto r = decode_traits<element_type>::decode(aset, cursor);
             if (!r)
             {
                 return result_type(jsoncons::unexpect, r.error());
             }
-            v[i] = std::move(*r);
+            v[count] = std::move(*r);
+            ++count;
             cursor.next(ec);
             if (JSONCONS_UNLIKELY(ec)) 
             {
-                return result_type{jsoncons::unexpect, conv_errc::not_vector, cursor.line(), cursor.column()}; 
+                return result_type{jsoncons::unexpect, ec, cursor.line(), cursor.column()}; 
             }
+        }
+        // exactly N elements must have been read and the array must end here
+        if (count != N || cursor.current().event_type() != staj_events::end_array)
+        {
+            return result_type{jsoncons::unexpect, conv_errc::not_array, cursor.line(), cursor.column()}; 
         }
         return v;
     }
